@@ -1,2 +1,138 @@
-/-! Line-protocol driver stub (to be filled in): reads stdin, echoes nothing. -/
-def main : IO Unit := pure ()
+import SMV.Model.Store
+/-!
+# Line-protocol driver for the model-field store (C10)
+
+```
+scn store <name>
+opt fixed=<0|1> allow=<0|1> initial=<idx> start=<tok|-> model=<none|truthy|falsy> cell=<tok|->
+values <tok>,<tok>,…          value of state 0, 1, …
+falsy <tok>,…                  tokens whose Python bool() is False
+trans <src> <ev> <tgt>
+op send <ev> | op wv <tok|-> | op ws <idx> | op raw <tok|-> | op read
+end
+```
+prints `scn <name>`, one `C …` line for the constructor, one `O <i> …` line per operation
+(`skipped` after a failed constructor), `end`. Tokens are numbers; `-` is Python's `None`.
+-/
+open SMV SMV.Store
+
+namespace DrvStore
+
+def splitWs (s : String) : List String := (s.splitOn " ").filter (· ≠ "")
+
+def kvs (toks : List String) : List (String × String) :=
+  toks.filterMap fun t =>
+    match t.splitOn "=" with
+    | k :: v :: rest => some (k, "=".intercalate (v :: rest))
+    | _ => none
+
+def look (kv : List (String × String)) (k : String) : String :=
+  match kv.find? (·.1 == k) with
+  | some (_, v) => v
+  | none => "-"
+
+def natOf (s : String) : Nat := s.toNat?.getD 0
+def optNat (s : String) : Option Nat := if s == "-" then none else s.toNat?
+def natList (s : String) : List Nat :=
+  if s == "-" || s == "" then [] else (s.splitOn ",").filterMap String.toNat?
+
+structure Scn where
+  name : String := ""
+  fixed : Bool := true
+  allow : Bool := false
+  initial : Nat := 0
+  start : Option Val := none
+  model : Option UserModel := none
+  values : List Val := []
+  falsy : List Val := []
+  trans : Array Tr := #[]
+  ops : Array Op := #[]
+deriving Inhabited
+
+def Scn.mach (s : Scn) : Mach :=
+  { values := s.values, initial := s.initial, trans := s.trans.toList, allow := s.allow,
+    truthy := fun v => !s.falsy.contains v }
+
+def addLine (s : Scn) (toks : List String) : Scn :=
+  match toks with
+  | "opt" :: rest =>
+    let kv := kvs rest
+    let cell := optNat (look kv "cell")
+    let model : Option UserModel :=
+      match look kv "model" with
+      | "truthy" => some { truthy := true, cell := cell }
+      | "falsy" => some { truthy := false, cell := cell }
+      | _ => none
+    { s with fixed := look kv "fixed" != "0", allow := look kv "allow" == "1",
+             initial := natOf (look kv "initial"), start := optNat (look kv "start"), model := model }
+  | ["values", l] => { s with values := natList l }
+  | ["falsy", l] => { s with falsy := natList l }
+  | ["trans", a, b, c] => { s with trans := s.trans.push ⟨natOf a, natOf b, natOf c⟩ }
+  | ["op", "send", e] => { s with ops := s.ops.push (.send (natOf e)) }
+  | ["op", "wv", v] => { s with ops := s.ops.push (.writeValue (optNat v)) }
+  | ["op", "ws", i] => { s with ops := s.ops.push (.writeState (natOf i)) }
+  | ["op", "raw", v] => { s with ops := s.ops.push (.raw (optNat v)) }
+  | ["op", "read"] => { s with ops := s.ops.push .read }
+  | _ => s
+
+def showOpt : Option Val → String
+  | none => "-"
+  | some v => toString v
+
+def showExc : Exc → String
+  | .invalidState => "invalidstate"
+  | .notAllowed e s => s!"notallowed:{e}:{s}"
+  | .invalidDef => "invaliddef"
+  | .user t => s!"user:{t}"
+  | .fuel => "fuel"
+
+def showRes : Except Exc Unit → String
+  | .ok _ => "ok"
+  | .error e => "err:" ++ showExc e
+
+def showObs (o : Store.Obs) : String :=
+  let st := match o.state with
+    | .ok s => toString s
+    | .error e => "!" ++ showExc e
+  let act := String.join (o.active.map fun a =>
+    match a with
+    | .ok true => "1"
+    | .ok false => "0"
+    | .error _ => "!")
+  s!"f={showOpt o.field} v={showOpt o.value} s={st} a={act} id={if o.ident then 1 else 0}"
+
+def runScn (s : Scn) : List String := Id.run do
+  let m := s.mach
+  let (st0, r0) := construct s.fixed m s.model s.start
+  let mut out : List String := [s!"scn {s.name}"]
+  match r0 with
+  | .error e =>
+    out := out ++ [s!"C err:{showExc e} f={showOpt st0.userView}"]
+    for i in [0:s.ops.size] do
+      out := out ++ [s!"O {i} skipped"]
+  | .ok _ =>
+    out := out ++ [s!"C ok {showObs (observe m st0)}"]
+    let mut st := st0
+    for i in [0:s.ops.size] do
+      let (st', r) := step m s.ops[i]! st
+      st := st'
+      out := out ++ [s!"O {i} {showRes r} {showObs (observe m st)}"]
+  return out ++ ["end"]
+
+partial def loop (h : IO.FS.Stream) (cur : Option Scn) : IO Unit := do
+  let line ← h.getLine
+  if line.isEmpty then return
+  let toks := splitWs (line.trimAscii.toString)
+  match toks, cur with
+  | "scn" :: _ :: name :: _, _ => loop h (some { name := name })
+  | ["end"], some s =>
+    IO.println ("\n".intercalate (runScn s))
+    loop h none
+  | _, some s => loop h (some (addLine s toks))
+  | _, none => loop h none
+
+end DrvStore
+
+def main : IO Unit := do
+  let stdin ← IO.getStdin
+  DrvStore.loop stdin none
